@@ -65,6 +65,7 @@ type ctWorld struct {
 	marshals  int            // MarshalLogObject calls of the probe field
 	sampHook  map[string][]zapcore.SamplingDecision
 	buildErr  error
+	hookErr   bool // hooks return an error (io leaves fail never; see flaky)
 	leafKinds map[string]string
 	lines     map[string][]string // io leaves: raw lines
 	synced    map[string]int      // io leaves: Sync calls
@@ -216,6 +217,9 @@ func ctBuild(t ctNode, al zapcore.Level, leafKind string) *ctWorld {
 				w.mu.Lock()
 				w.hooks[key]++
 				w.mu.Unlock()
+				if w.hookErr {
+					return fmt.Errorf("hook %s failed", key) // must not disturb other branches or hooks
+				}
 				return nil
 			})
 		case "lazy":
